@@ -13,7 +13,8 @@
       }
 
   `usize` = 2^64.  A Rust panic is the explicit outcome `.panic`.
-  Deviation switches (all off = the intended decoder = proposed_fixes/C41-dechunk-framing.patch):
+  Deviation switches (all off = the intended decoder = the code since /repo commit 9d62852, `fix: dechunk …`;
+  all on = `Dev.legacy`, the decoder before that commit):
     * `extInSize`     (C41-F1) the whole size line, including a `;chunk-extension`, is handed to
                       `from_str_radix`, so a valid chunk with an extension is rejected;
     * `uncheckedAdd`  (C41-F2) `size + 2` is a plain `+`: sizes ≥ 2^64-2 overflow (arithmetic panic in a
@@ -38,7 +39,7 @@ structure Dev where
   skipDataCrlf : Bool := false
 deriving DecidableEq, Repr
 
-/-- the decoder as it is in /repo before the `fix:` commit -/
+/-- the decoder as it was in /repo before fix commit 9d62852 -/
 def Dev.legacy : Dev := { extInSize := true, uncheckedAdd := true, skipDataCrlf := true }
 /-- all switches off: the intended algorithm -/
 def Dev.fixed : Dev := {}
